@@ -63,6 +63,10 @@ type Channel struct {
 	packageCh chan Package
 
 	errCh chan error
+
+	// closing is set by the first caller of Close: the teardown is
+	// communicated once, by one goroutine
+	closing int32
 }
 
 // NewChannel communicates the creation of a new channel with the
@@ -166,6 +170,13 @@ func (tdsChan *Channel) Close() error {
 	closed := tdsChan.closed
 	tdsChan.RUnlock()
 	if closed {
+		return ErrChannelClosed
+	}
+
+	// A concurrent Close (e.g. the channel's user and Conn.Close) must not
+	// send a second teardown: header type and packet number of the
+	// teardown are not guarded against another closer.
+	if !atomic.CompareAndSwapInt32(&tdsChan.closing, 0, 1) {
 		return ErrChannelClosed
 	}
 
